@@ -65,6 +65,11 @@ def run (w : World) : List (Op σ) → World × List Obs
     let (w'', os) := run w' ops
     (w'', o :: os)
 
+/-- a history recorded as (world before the call, the call, what was observed) -/
+def trace (w : World) : List (Op σ) → List (World × Op σ × Obs)
+  | [] => []
+  | op :: ops => (w, op, (step H V w op).2) :: trace (step H V w op).1 ops
+
 /-- the world right after a successful construction at time `now` -/
 def constructed (owner operator : Addr) (domain : Bytes) (minDelay retention : Nat) (sets : List WSigners) (now : Nat) :
     Option World :=
